@@ -12,6 +12,7 @@ import (
 	"encoding/json"
 	"fmt"
 	"hash/fnv"
+	"io"
 	"os"
 	"os/exec"
 	"strconv"
@@ -193,6 +194,14 @@ func (x *emitInst) op(k int) int {
 		e.LDA_imm8_b(byte(x.id))
 	case 7:
 		e.STA_long(uint32(0x7E0000 + x.id))
+		if k == 7 { // a long stretch of short lines: listings of several hundred records
+			for i := 0; i < 150; i++ {
+				e.NOP()
+				if i%3 == 0 {
+					e.Comment(fmt.Sprintf("i%d of %d", i, x.id))
+				}
+			}
+		}
 	case 9:
 		e.Label(fmt.Sprintf("end%d", k))
 		e.RTS()
@@ -209,8 +218,9 @@ func (x *emitInst) op(k int) int {
 
 // ---- snes.ROM: header round trips and bus writers
 type romInst struct {
-	r  *snes.ROM
-	id int
+	r     *snes.ROM
+	id    int
+	spent io.Writer // a writer that has been filled exactly to the end of its window and is still held
 }
 
 func newRomInst(id int) *romInst {
@@ -219,7 +229,7 @@ func newRomInst(id int) *romInst {
 		c[i] = byte(i*5 + id)
 	}
 	r, _ := snes.NewROM("x", c)
-	return &romInst{r, id}
+	return &romInst{r: r, id: id}
 }
 func (x *romInst) nops() int { return 24 }
 func (x *romInst) op(k int) int {
@@ -236,6 +246,13 @@ func (x *romInst) op(k int) int {
 		w2.Write([]byte{3, 4})
 	case 2:
 		r.ReadHeader()
+		if x.spent == nil {
+			x.spent = r.BusWriter(0x01FFF0)
+			x.spent.Write(make([]byte, 15)) // $FFF0..$FFFE: exactly up to the window end
+		} else {
+			n, err := x.spent.Write([]byte{0xEE, byte(x.id)}) // must fail and store nothing, now and later
+			return digest(r.Contents, r.Header.HeaderVersion(), n, err)
+		}
 	case 3:
 		rd := r.BusReader(0x018000)
 		b := make([]byte, 8)
